@@ -27,6 +27,14 @@ AFTER_CALL = [
     "function h(n) { if (n > 0) { return h(n - 1); } return Name; } t = []; foreach i in [1, 2, 3] { x = h(i); y = Count; z = Name; } return [x, y, z, Active];",
 ]
 
+# one array / string object given to EVERY evaluator with SetVariable (an allow-list built once by the host): reading it - with
+# built-ins, operators or loops - in one evaluator must not disturb another
+SHARED_VAR = [
+    "return join(allow, \",\") + \"|\" + string(len(allow));", "n = 0; foreach x in allow { n++; } foreach c in greeting { n++; } return [n, join(allow, \"-\")];",
+    "return [Name in allow, sort(allow), reverse(allow), len(greeting)];", "s = \"\"; foreach i, x in allow { s = s + string(i) + string(x); } return s + upper(greeting);",
+    "return [join(allow, \"\"), join(allow, \"\"), allow[0], allow[6], split(greeting, \" \")];", "return [min(allow[2], 9), max(allow[6], 1), string(allow), keys({\"k\": allow})];",
+]
+
 class C11(Prop):
     id = "C11"
     compare_run = True
@@ -56,6 +64,8 @@ class C11(Prop):
         specs.append({"kind": "separate", "scripts": AFTER_CALL, "objs": objs, "goroutines": 48, "rounds": 12})
         specs.append({"kind": "separate", "scripts": AFTER_CALL[:1], "objs": objs, "goroutines": 32, "rounds": 12})
         specs.append({"kind": "shared", "script": "function f(a) { return a; } x = f(Count); return Count > 3 && len(Name) > 2;", "objs": objs, "goroutines": 16, "rounds": 20})
+        specs.append({"kind": "separate", "scripts": SHARED_VAR, "objs": objs, "goroutines": 36, "rounds": 12, "sharedvar": True})
+        specs.append({"kind": "separate", "scripts": SHARED_VAR[:1], "objs": objs, "goroutines": 24, "rounds": 20, "sharedvar": True})
         for _ in range(reps):
             for n in ns:
                 specs.append({"kind": "separate", "scripts": FRESH, "objs": objs, "goroutines": max(n, len(FRESH) * 2), "rounds": 4})
